@@ -1,6 +1,8 @@
 (* Props/C02.v -- channel frequency labels follow the band model and survive frequency slicing. *)
 From Coq Require Import ZArith QArith List.
 From PB Require Import Lib.PySlice Gen.GenConsts Model.Band Proofs.BandProofs Gen.GenBand Proofs.BandGen.
+From PB Require Import Model.Ledger Model.Getitem Gen.GenGetitem Proofs.GetitemProofs.
+Import ListNotations.
 Open Scope Z_scope.
 
 (* the _align constants in core.py are 0, 1/2, 1: a statement about the table GENERATED from the source *)
@@ -61,9 +63,36 @@ Proof. exact freq_slice_generated. Qed.
 Theorem C02_generated_align : align_name 1 = gen_fs_align.
 Proof. exact fs_align_generated. Qed.
 
+(* z[time, freq, ...]: the dispatch of RadioSignal.__getitem__ (regenerated from core.py, C01_generated_getitem).  A successful
+   index is freq_slice on item 1 (C02_slice / C02_nested apply); with one item the band is untouched; items beyond the two
+   labelled axes - a Stokes or polarisation component, any trailing-axis selection - never influence time or frequency labels;
+   anything but a slice on the frequency axis is IndexError; Stokes component names are the pinned FullStokesSignal.__getitem__. *)
+Theorem C02_getitem : forall l bd index l' off st r,
+  radio_getitem l bd index = GOk l' off st r ->
+  exists a b c rest, index = ISlice a b c :: rest /\ time_slice l a b c = Ok l' off st /\
+    match rest with
+    | [] => r = None
+    | ISlice fa fb fc :: _ => exists b' lo, r = Some (b', lo) /\ freq_slice bd fa fb fc = BOk b' lo
+    | IOther :: _ => False
+    end.
+Proof. exact radio_getitem_ok. Qed.
+Theorem C02_trailing_items_irrelevant : forall l bd i0 i1 rest, radio_getitem l bd (i0 :: i1 :: rest) = radio_getitem l bd [i0; i1].
+Proof. exact radio_getitem_trailing. Qed.
+Theorem C02_time_only_keeps_band : forall l bd i0, radio_getitem l bd [i0] = signal_getitem l [i0].
+Proof. exact radio_getitem_time_only. Qed.
+Theorem C02_getitem_refuses : forall l bd i0 rest, radio_getitem l bd (i0 :: IOther :: rest) = GIndex.
+Proof. exact (fun l bd i0 rest => proj1 (proj2 (radio_getitem_refuses l bd i0 rest))). Qed.
+Theorem C02_generated_getitem : forall l bd index, radio_getitem l bd index = gen_radio_getitem l bd index.
+Proof. exact radio_getitem_generated. Qed.
+Theorem C02_generated_stokes_getitem : gen_stokes_getitem_is_component_or_parent = true.
+Proof. exact stokes_getitem_pinned. Qed.
+
 Print Assumptions C02_align_constants.
 Print Assumptions C02_in_band.
 Print Assumptions C02_slice.
 Print Assumptions C02_nested.
 Print Assumptions C02_model_meets_spec.
 Print Assumptions C02_generated_slice.
+Print Assumptions C02_getitem.
+Print Assumptions C02_trailing_items_irrelevant.
+Print Assumptions C02_generated_getitem.
